@@ -133,12 +133,20 @@ def random_archive(rng, nmax=6, with_compressed=True, allow_bad=True):
     """a directory-structured archive: dirs followed by their contents, files, links"""
     ms = []
     dirs = [b""]
+    alldirs = []
     names = [b"a", b"b", b"c", b"dd", b"e1", b"longer_name"]
     used = set()
     n = rng.randint(1, nmax)
     pool = compressed_pool() if with_compressed else {}
 
     def fresh(prefix):
+        # siblings whose name merely starts with the name of an earlier directory ("a/" ... "ab/y"):
+        # being inside a directory is a matter of path components, not of string prefixes
+        if len(alldirs) > 0 and rng.random() < 0.2:
+            nm = rng.choice(alldirs) + rng.choice([b"b", b"0", b"_"]) + (b"/y" if rng.random() < 0.5 else b"")
+            if nm not in used:
+                used.add(nm)
+                return nm
         for _ in range(50):
             nm = prefix + rng.choice(names) + (b"%d" % rng.randrange(100) if rng.random() < 0.5 else b"")
             if nm not in used:
@@ -153,6 +161,7 @@ def random_archive(rng, nmax=6, with_compressed=True, allow_bad=True):
             p = fresh(d)
             ms.append(G("dir", p, level=rng.choice([1, 2, 2, 3]), perms=rng.choice(["default", 0o40700, 0o40555, None])))
             dirs.append(p + b"/")
+            alldirs.append(p)
             if rng.random() < 0.5:
                 dirs = [x for x in dirs if p.startswith(x.rstrip(b"/")) or x == b""] + [p + b"/"]
         elif q < 0.34:
